@@ -10,7 +10,8 @@
      nc    number of declared child subintents (v2 / sub)
      ins   sequence of instructions, each a record with field op:
        take | return b | burn b | proof_b b | proof_az | pop | push p | clone p | drop p | drop_all
-       | drop_named | alloc | assert_next | assert_bucket b | verify_parent
+       | drop_named | drop_az | drop_az_regular | drop_az_sig (DROP_AUTH_ZONE_*PROOFS: no named proof is touched)
+       | alloc | assert_next | assert_bucket b | verify_parent
        | call  [tgt, bs, ps, rs, as, blob]      tgt = -1 (static address) or a named-address index,
        | yield_parent [bs, ps] | yield_child [child, bs, ps]
                                                 bs/ps/rs/as = sequences of bucket / proof / reservation /
@@ -49,6 +50,7 @@ Events(i, kind, nc) ==
        [] i.op \in {"push", "drop"} -> << xp(i.p) >>
        [] i.op = "clone"     -> << <<"up", i.p>>, <<"cp", -2 - i.p>> >>
        [] i.op \in {"drop_all", "drop_named"} -> << <<"xpall">> >>
+       [] i.op \in {"drop_az", "drop_az_regular", "drop_az_sig"} -> <<>>
        [] i.op = "alloc"     -> << <<"cr">>, <<"ca">> >>
        [] i.op = "assert_next" -> <<>>
        [] i.op = "assert_bucket" -> << <<"ub", i.b>> >>
